@@ -47,6 +47,9 @@ BOUND = {
     "thorough": "vectors: all sequences of length 0..3 over the 'thorough' alphabets (<= 12 values); frames: all single-column frames of 0..3 rows over the thorough alphabets, all ordered pairs of 12 column names, all ordered pairs of the 10-column menu at 0..3 rows and all triples at 0/2/3 rows; GeoJSON: 0..3 features; ListOfDicts: all lists of 0..3 items over 11 items; the same full configuration product",
 }
 TIME_CAP = {"quick": 600, "thorough": 3000}
+EXPLANATION = ("states = distinct object descriptions plus distinct rendered texts (addresses masked); transitions = rendering calls, "
+               "each made on the real object under its own PRINT_* settings and COLUMNS value (restored after every call); "
+               "distinct_outcomes = distinct (class, rendered text) pairs and violation kinds")
 
 E_ACUTE = "é"          # combining: two code points, display width 1
 LONG = "a" * 50
